@@ -159,6 +159,18 @@ PROPS = {
                 "an if-feature on the uses, and in 30 % a second uses of the same grouping elsewhere without the refines; 0-2 module-level augments, 45 % of them in another module (namespace of the added nodes); "
                 "compared on the real code: dump(factored) = dump(inline) without namespaces, and the namespace of every node; compared with the Lean expansion model: verdict, error class, dump",
     },
+    "C11": {
+        "streams": {"ymods": {"quick": 1500, "thorough": 60000}},
+        "trusted": ["github.com/danos/utils/tsort (Tarjan SCC) for import / include cycles is outside the model",
+                    "the generator knows which references it wrote: the Lean driver rebuilds the reference graphs (features, identities, typedefs, groupings, imports) from the case and decides cycles with the proved walk",
+                    "Go's randomised map iteration is what the repeated compiles sample: 8 compiles per case, modules supplied in 8 different orders"],
+        "modelled": ["which error is reported when several apply is not compared (only that the outcome is an error); a module importing itself and two modules deviating one node in an order-dependent way are compared for stability only",
+                     "submodule include cycles are checked by the probe list in DESIGN.md, not generated"],
+        "rule": "three modules ma <- mb <- mc full of cross references (features on features, identity bases, typedef chains, groupings using groupings nested in containers, identityref / typedef leaves with if-features, augments and deviations of ma's nodes from mb and mc); "
+                "45 % of the cases carry one fault out of 20 kinds (cycle among features / identities / used typedefs / unused typedefs / groupings direct or nested / imports, self import, missing module, unknown prefix / typedef / grouping / feature / identity, "
+                "duplicate feature / identity / typedef / grouping, bad augment path, two modules deviating one leaf in an order-dependent way); each case is compiled 8 times with the modules supplied in different orders; "
+                "compared: the verdict and its class with the Lean decision (cycle walk over the reference graphs), and that verdict and dump never change between the 8 compiles",
+    },
     "C04": {
         "streams": {"xsmall": {"quick": 1, "thorough": 1, "spec_proj": "accept"},
                     "xfuzz": {"quick": 30000, "thorough": 1000000, "spec_proj": "accept"}},
